@@ -442,6 +442,10 @@ impl<'a> Parser<'a> {
 
     /// Parses multi-select lists (e.g., "[foo, bar, baz]")
     fn parse_multi_list(&mut self) -> ParseResult {
+        // A multi-select list requires at least one element.
+        if self.peek(0) == &Token::Rbracket {
+            return Err(self.err(self.peek(0), "Expected an expression", true));
+        }
         Ok(Ast::MultiList {
             offset: self.offset,
             elements: self.parse_list(Token::Rbracket)?,
